@@ -66,7 +66,14 @@ func num(s string) (interface{}, error) {
 	if strings.ContainsRune(s, '.') {
 		return strconv.ParseFloat(s, 64)
 	}
-	return strconv.ParseInt(s, 10, 64)
+	n, err := strconv.ParseInt(s, 10, 64)
+	if err != nil {
+		// beyond int64 there are still values of a uint64 leaf
+		if u, uerr := strconv.ParseUint(s, 10, 64); uerr == nil {
+			return u, nil
+		}
+	}
+	return n, err
 }
 
 func literal(s string) interface{} {
